@@ -32,14 +32,33 @@ def _slug(s):
     return "".join(ch if ch.isalnum() or ch in "-_." else "_" for ch in s)[:150]
 
 
+def apply_env(env):
+    """Sets the process environment a unit is verified under (built-ins probed, clauses evaluated, witnesses replayed, e.g. TZ:
+    the property quantifies over it) and returns what restores the previous one (pool workers are reused)."""
+    if not env:
+        return None
+    import time as _time
+    saved = {k: os.environ.get(k) for k in env}
+    for k, v in env.items():
+        if v is None:
+            os.environ.pop(k, None)
+        else:
+            os.environ[k] = v
+    if "TZ" in env:
+        _time.tzset()
+    return saved
+
+
 def unit_worker(job):
     """Runs in a pool process.  Returns a list of plain dicts (one per receiver instance)."""
     name, timeout_ms, prop = job
+    saved_env = None
     try:
         REGISTRY, _ = load_contracts()
         from . import extract, replay
         from .verify import run_unit
         c = REGISTRY[name]
+        saved_env = apply_env(c.env)
         mod = extract.import_module(c.file)
         out = []
         lookup = None
@@ -67,6 +86,9 @@ def unit_worker(job):
         return [{"unit": name, "error": ("crash", traceback.format_exc()), "obligations": [], "failures": [],
                  "covers": [], "bounded": [], "assumptions": [], "paths": 0, "time": 0, "solver_time": 0,
                  "file": "?", "qual": "?", "label": "", "src": None, "decorators": [], "outcomes": {}, "notes": []}]
+    finally:
+        if saved_env is not None:
+            apply_env(saved_env)
 
 
 def native_only(c, mod, rep, prop):
